@@ -37,7 +37,7 @@ def run(ctx):
     # the whole life of a daemon: chronyd answering, a signal delivered on the way, the segment sampled every 10 ms
     for sig in ("", "SIGUSR1", "SIGUSR2", "SIGHUP", "SIGCONT", "SIGWINCH", "SIGURG", "SIGCHLD", "SIGALRM", "SIGTERM", "SIGINT"):
         rates.append("50+life" + sig)
-    rates += ["7+life", "omit+lifeSIGUSR1", "4294967+lifeSIGUSR1"]
+    rates += ["7+life", "omit+lifeSIGUSR1", "4294967+lifeSIGUSR1", "50+lifeREFUSE", "7+lifeREFUSE"]
     # the daemon's main thread held back after each thread spawn (a starved or stopped process at start-up)
     rates += ["50+slowspawn", "7+slowspawn", "omit+slowspawn", "4294968+slowspawn"]
     rates = list(dict.fromkeys(rates))
